@@ -13,6 +13,7 @@
     `save p`   (`J<p>`)   the current contents of page `p` appended to the journal
     `jsync`    (`j`)      journal synced
     `write p v`(`D<p>`)   page `p` written in place
+    `dsync`    (`d`)      database file synced
     `done`     (`Jd`)     journal marked DONE: the file is the new checkpoint
     `dropLog`  (`t`)      the log is truncated
     `empty`    (`u`)      journal emptied (before the next `start`)
@@ -43,6 +44,8 @@ structure St where
   saved : List (Nat × Nat)      -- durable journal entries (page, contents)
   pending : List (Nat × Nat)    -- appended, not yet synced
   ckpt : File                   -- ghost: the file as of the last checkpoint
+  synced : File := []           -- the file as of its last fsync (crash model B: later writes may be lost)
+  dirty : Bool := false         -- written since its last fsync
 deriving Repr
 
 def init : St := { file := [], mode := .fresh, base := 0, saved := [], pending := [], ckpt := [] }
@@ -52,6 +55,7 @@ inductive Ev where
   | save (p : Nat)
   | jsync
   | write (p v : Nat)
+  | dsync
   | done
   | dropLog
   | empty
@@ -62,11 +66,12 @@ def durablySaved (s : St) (p : Nat) : Bool := s.saved.any (fun e => e.1 == p)
 
 /-- The protocol rule: may event `e` be issued in state `s`? -/
 def allowed (s : St) : Ev → Bool
-  | .start b => (s.mode == .fresh || s.mode == .emptied) && b == s.file.length
+  | .start b => (s.mode == .fresh || s.mode == .emptied) && b == s.file.length && !s.dirty
   | .save p => s.mode == .active && p < s.base && !journaled s p
   | .jsync => true
   | .write p _ => s.mode == .fresh || (s.mode == .active && (s.base ≤ p || durablySaved s p))
-  | .done => s.mode == .active
+  | .dsync => true
+  | .done => s.mode == .active && !s.dirty
   | .dropLog => s.mode == .done
   | .empty => s.mode == .dropped
 
@@ -76,7 +81,8 @@ def step (s : St) : Ev → St
   | .jsync => { s with saved := s.saved ++ s.pending, pending := [] }
   | .write p v =>
     let f := writePage s.file p v
-    if s.mode == .fresh then { s with file := f, ckpt := f } else { s with file := f }
+    if s.mode == .fresh then { s with file := f, ckpt := f, dirty := true } else { s with file := f, dirty := true }
+  | .dsync => { s with synced := s.file, dirty := false }
   | .done => { s with mode := .done, ckpt := s.file }
   | .dropLog => { s with mode := .dropped }
   | .empty => { s with mode := .emptied, saved := [], pending := [] }
@@ -93,6 +99,16 @@ def restore (s : St) (k : Nat) : File :=
   match s.mode with
   | .active => ((s.saved ++ s.pending.take k).foldl (fun f e => writePage f e.1 e.2) s.file).take s.base
   | _ => s.file
+
+/-- Crash model B: a page of the crash image holds what was written last or what the last fsync saw; the image is at
+    least as long as the shorter and at most as long as the longer of the two. -/
+def CrashImage (s : St) (g : File) : Prop := ∀ p : Nat, g[p]? = s.file[p]? ∨ g[p]? = s.synced[p]?
+
+/-- `Pager::return_to_checkpoint` on an arbitrary crash image `g` of the database file. -/
+def restoreFrom (s : St) (g : File) (k : Nat) : File :=
+  match s.mode with
+  | .active => ((s.saved ++ s.pending.take k).foldl (fun f e => writePage f e.1 e.2) g).take s.base
+  | _ => g
 
 /-- does recovery still have to replay the log?  (`Leftover::DropLog` = no) -/
 def logApplies (s : St) : Bool := s.mode == .fresh || s.mode == .active
